@@ -53,6 +53,8 @@ def configs(tier):
                     if ntasks(sh, axis) > 6 and nj > 2:
                         continue        # 9 tasks with >2 workers: too many orders; covered with 1 and 2 workers
                     out.append((sh, axis, kind, nj, '3d', 'virtual'))
+            out.append((sh, axis, 'list', 2, '3d-progress', 'virtual'))       # progress='tqdm' (module absent)
+            out.append((sh, axis, 'dict', 3, '3d-progress', 'virtual'))
             out.append((sh, axis, 'shared', 2, 'group', 'virtual'))
             out.append((sh, axis, 'shared', 1, 'group-refit', 'virtual'))
             if ntasks(sh, axis) <= (3 if q else 4):
@@ -153,12 +155,19 @@ class Schedules3D(Space):
         except Exception as e:      # noqa
             return SKIP('reference precondition: %s' % type(e).__name__)
         extra = {}
+        fortran = (n0 + 2 * n1 + nj + len(order) + (kind == 'list')) % 2 == 1       # same values, column-major memory layout
+        sgn['layout'] = 'F' if fortran else 'C'
+
+        def arr():
+            return np.asfortranarray(sigs) if fortran else sigs.copy()
 
         def run():
             with contextlib.redirect_stdout(io.StringIO()):
-                if c['entry'] == '3d':
-                    return compute_features_3d(sigs.copy(), FS, FR, compute_features_kwargs=opts if kind == 'alias' else copy.deepcopy(opts), axis=axis,
-                                               return_samples=True, n_jobs=nj), None
+                if c['entry'].startswith('3d'):
+                    with sched.tqdm_mode('absent' if c['entry'] == '3d-progress' else 'leave'):
+                        return compute_features_3d(arr(), FS, FR, compute_features_kwargs=opts if kind == 'alias' else copy.deepcopy(opts),
+                                                   axis=axis, return_samples=True, n_jobs=nj,
+                                                   progress='tqdm' if c['entry'] == '3d-progress' else None), None
                 bg = BycycleGroup(center_extrema='trough', thresholds=dict(S.T0))
                 if c['entry'] == 'group-refit':
                     # the same object was fitted before on another array (different shape): nothing may remain of it
@@ -167,7 +176,7 @@ class Schedules3D(Space):
                     saved, sched.VirtualPool.order = sched.VirtualPool.order, None
                     bg.fit(other, FS, FR, axis=(0, 1), n_jobs=1)
                     sched.VirtualPool.order = saved
-                bg.fit(sigs.copy(), FS, FR, axis=axis, n_jobs=nj)
+                bg.fit(arr(), FS, FR, axis=axis, n_jobs=nj)
                 return bg.df_features, bg
         try:
             if c['executor'] == 'virtual':
